@@ -62,6 +62,18 @@
             n += 1;
         }}}
         assert!(n > 3000, "{n}");
+        // (b0) sizes the template chooses: a padding width / repeat count at the top of the integer range must be an error
+        // value: the request overflows the capacity arithmetic (a panic, not an out-of-memory condition). Sizes that are merely
+        // huge (2^40) are not run here: without a limit in the engine they would really be allocated
+        for expr in ["'a'|indent(18446744073709551615)", "'a'|indent(9223372036854775807)", "'a\nb'|indent(width=18446744073709551615, first=true)",
+                     "(1,) * 4611686018427387904", "(1, 2) * 9223372036854775807", "(1,) * 1152921504606846976",
+                     "'%018446744073709551615d'|format(1)", "'%18446744073709551615s'|format('x')", "'%-9223372036854775807s'|format('x')", "'%^9223372036854775807s'|format('x') if false else 1",
+                     "'x'|center(18446744073709551615)", "'x'|center(9223372036854775807)"] {
+            guard(expr, &mut || {
+                let env = Environment::new();
+                if let Ok(e) = env.compile_expression(expr) { if let Ok(v) = e.eval(()) { let _ = v.to_string().len(); } }
+            });
+        }
         // (b1) every built-in filter and test (names read from the engine's own tables) applied to boundary values with
         // 0, 1 and 2 boundary arguments (found on the unchanged tree: `1 is divisibleby(0)` panicked with a zero divisor)
         {
